@@ -171,12 +171,49 @@ def corpus_case(ctx):
 
 def cards_case(seed, rng, ctx):
     """get_cards + Card.content on a random block vs the Lean lexer model"""
-    return None
+    from MIP.mip.cards import get_cards
+    from MIP.mip.main import Card
+    words = ['1', '2', '-3', '0', 'px', 'so', '1.5', 'imp:n=1', 'u=2', '(1:-2)', '#3', 'like', 'but', 'c', 'C', 'fill=1',
+             '&', '$', '$ note & more', '& $x', 'm1', '1001.70c', 'tr1', '*tr2', 'cc', 'c1']
+    blanks = [' ', '  ', '   ', '\t', ' \t', '     ', '      ', '\t ', '    ']
+    lines = []
+    for _ in range(rng.randint(1, 9)):
+        m = rng.random()
+        lead = rng.choice(['', '', '', ' ', '  ', '    ', '     ', '      ', '\t', ' \t', '    \t'])
+        if m < 0.2:
+            l = rng.choice(['', ' ', '  ', '   ', '    ']) + rng.choice(['c', 'C']) + rng.choice(['', ' comment', '\tx', ' $ &', 'x', '1 2'])
+        else:
+            l = lead + ''.join(rng.choice(words) + rng.choice(blanks) for _ in range(rng.randint(1, 6)))
+            if rng.random() < 0.3:
+                l = l.rstrip() + rng.choice([' &', '&', ' & ', ' $ c', ' & $ x', ' $ a & b', ' &  \t'])
+        if not l.strip():
+            l = '1'
+        lines.append(l)
+    block = '\n'.join(lines)
+    key = h(block)
+    code = [Card(lines=c, position=n, type='c').content() for c, n, t in get_cards(block, skipcomments=True) if t == 'card']
+    resp = ctx['drv'].ask('cards ' + lean.hx(block))
+    fails = []
+    if not resp.startswith('ok'):
+        fails.append(fail('disagreement', 'driver: ' + resp, {'stream': 'cards'}, {'block': block}))
+    else:
+        model = [lean.unhx(x) for x in resp.split()[1:]]
+        if model != code:
+            fails.append(fail('disagreement', 'block %r: code cards %r / model %r' % (block, code, model),
+                              {'stream': 'cards'}, {'block': block}))
+    nt = [key] if any('&' in l or '$' in l or '\t' in l for l in lines) else []
+    return dict(hashes=[key], nontrivial_hashes=nt, dist={'cards:lines': len(lines), 'cards:cards': len(code)},
+                sample={'block': block, 'cards': code}, failures=fails)
 
 
 def replay(payload, ctx):
     p = payload.get('payload') or {}
     out = {}
+    if 'block' in p:
+        from MIP.mip.cards import get_cards
+        from MIP.mip.main import Card
+        out['code'] = [Card(lines=c, position=n, type='c').content() for c, n, t in get_cards(p['block'], skipcomments=True)]
+        out['model'] = [lean.unhx(x) for x in ctx['drv'].ask('cards ' + lean.hx(p['block'])).split()[1:]]
     if 'deck' in p:
         res = impl.convert(p['deck'], [])
         out['exception'] = res.exc_type
